@@ -288,7 +288,7 @@ def resolve(model: RefDir, op):
                 tn = _pick(cands, r[1 + 2 * i])
                 # (10, -11: more than a superscript digit can show)
                 e = [1, 1, 1, -1, -1, 2, 2, -2, 3, -3, 1, 2, -1, 10,
-                     -11][r[2 + 2 * i] % 15]
+                     -11, 4, -4][r[2 + 2 * i] % 17]
                 items.append([tn, e])
         dim = {}
         for tn, e in merge_items(items):
